@@ -363,6 +363,22 @@ Theorem C15_cc_leader_completeness_partial : forall F, inter_family F -> forall 
 Proof. exact cc_leader_completeness. Qed.
 Print Assumptions C15_cc_leader_completeness_partial.
 
+(* FULL (no restriction on the configurations): in every step of the membership-change system
+   each node's persisted term and commit index never regress and its vote changes only with a
+   term increase or from none *)
+Theorem C15_cc_hardstate_monotone : forall boot page1 x x', cxstep boot page1 x x' ->
+  forall y, n_term (fst (cx_nodes x y)) <= n_term (fst (cx_nodes x' y)) /\
+            n_commit (fst (cx_nodes x y)) <= n_commit (fst (cx_nodes x' y)) /\
+            (n_term (fst (cx_nodes x' y)) = n_term (fst (cx_nodes x y)) ->
+             n_vote (fst (cx_nodes x' y)) = n_vote (fst (cx_nodes x y)) \/ n_vote (fst (cx_nodes x y)) = None).
+Proof.
+  intros boot page1 x x' H y. destruct H as [id ev extra _ _]. cbn [cx_nodes].
+  destruct (Nat.eq_dec y id) as [->|Hy]; [rewrite RaftInvBase.upd_same|rewrite RaftInvBase.upd_other by exact Hy; split; [lia|split; [lia|intros _; left; reflexivity]]].
+  destruct (cx_nodes x id) as [n pend]. destruct (exec_cc_hs_mono boot page1 id ev n pend) as (H1 & H2 & H3).
+  cbn [fst]. split; [exact H1|split; [exact H3|exact H2]].
+Qed.
+Print Assumptions C15_cc_hardstate_monotone.
+
 (* the instance "one membership change": while the configurations of a run are the boot
    configuration c or its successor c' under one change, the run is safe *)
 Theorem C15_cc_one_change_safe_partial : forall c op c' page1, wfc c -> apply_cc c op = Some c' ->
